@@ -8,44 +8,44 @@ func init() {
 	registerRule(&RuleDef{ID: "L2", Min: 100, Doc: "every access to a lock-guarded field happens with its lock must-held (write mode for writes), through all static callers of unexported helpers", Run: ruleL2("L2", "client", "cache", "server", "database/inmemory")})
 	registerRule(&RuleDef{ID: "L3", Min: 20, Doc: "rpcMutex / txnMutex are never acquired while a lock that is taken under them elsewhere may be held", Run: ruleL3("L3", []outerSpec{{"client", "ovsdbClient", "rpcMutex"}, {"server", "OvsdbServer", "txnMutex"}})})
 	registerRule(&RuleDef{ID: "L4", Min: 4, Doc: "OvsdbServer.Transact executes, notifies and commits under txnMutex, released only by defer, nothing asynchronous", Run: ruleL4})
-	registerRule(&RuleDef{ID: "L5", Min: 8, Doc: "monitor registration and its initial snapshot happen under txnMutex", Run: ruleL5})
+	registerRule(&RuleDef{ID: "L5", Min: 5, Doc: "monitor registration and its initial snapshot happen under txnMutex", Run: ruleL5})
 	// --- E2 aliasing
-	registerRule(&RuleDef{ID: "A1", Min: 30, Doc: "exported read APIs return only fresh copies", Run: ruleA1})
+	registerRule(&RuleDef{ID: "A1", Min: 20, Doc: "exported read APIs return only fresh copies", Run: ruleA1})
 	registerRule(&RuleDef{ID: "A1p", Min: 2, Doc: "callers of RowsShallow are frozen and clone before returning", Run: ruleA1p})
 	registerRule(&RuleDef{ID: "A2", Min: 2, Doc: "the cache stores a private copy", Run: ruleA2})
 	registerRule(&RuleDef{ID: "A3", Min: 15, Doc: "in-place difference/mutation algorithms only receive owned values", Run: ruleA3})
-	registerRule(&RuleDef{ID: "A4", Min: 5, Doc: "committed rows and reference index are written only by Commit/CreateDatabase; Commit is only called by OvsdbServer.Transact", Run: ruleA4})
+	registerRule(&RuleDef{ID: "A4", Min: 3, Doc: "committed rows and reference index are written only by Commit/CreateDatabase; Commit is only called by OvsdbServer.Transact", Run: ruleA4})
 	registerRule(&RuleDef{ID: "A5", Min: 15, Doc: "no error result is dropped on the commit path", Run: ruleA5})
 	registerRule(&RuleDef{ID: "T-SCAN", Min: 2, Doc: "notify and commit are dominated by the scan of the results for an error", Run: ruleTSCAN})
-	registerRule(&RuleDef{ID: "A3-REPAIR", Min: 3, Doc: "a model field consumed by an in-place algorithm is written back with SetField before the operation completes", Run: ruleA3REPAIR})
+	registerRule(&RuleDef{ID: "A3-REPAIR", Min: 2, Doc: "a model field consumed by an in-place algorithm is written back with SetField before the operation completes", Run: ruleA3REPAIR})
 	registerRule(&RuleDef{ID: "A3-TABLE", Min: 3, Doc: "the only parameter written through reflect by each function of package updates is its reviewed in-place argument", Run: ruleA3TABLE})
 	registerRule(&RuleDef{ID: "S-PURE", Min: 6, Doc: "building a notification only writes containers created for it", Run: ruleSPURE})
-	registerRule(&RuleDef{ID: "X5", Min: 6, Doc: "set-modifying helpers receive live index sets only inside Create/Update/Delete", Run: ruleX5})
-	registerRule(&RuleDef{ID: "R-REPORT", Min: 10, Doc: "every outcome assigned to an operation's result reaches results[i]", Run: ruleRREPORT})
+	registerRule(&RuleDef{ID: "X5", Min: 4, Doc: "set-modifying helpers receive live index sets only inside Create/Update/Delete", Run: ruleX5})
+	registerRule(&RuleDef{ID: "R-REPORT", Min: 4, Doc: "every outcome assigned to an operation's result reaches results[i]", Run: ruleRREPORT})
 	// --- E3 codecs
 	registerRule(&RuleDef{ID: "K1", Min: 30, Doc: "keyed codec pairs agree member by member (pass also emits K2)", Run: ruleK12})
 	registerRule(&RuleDef{ID: "K2", Min: 15, Doc: "positional codec pairs agree position by position (emitted by the K1 pass)", Run: noop})
-	registerRule(&RuleDef{ID: "K3", Min: 30, Doc: "error-name tables are inverse bijections and cover every declared name", Run: ruleK3})
+	registerRule(&RuleDef{ID: "K3", Min: 20, Doc: "error-name tables are inverse bijections and cover every declared name", Run: ruleK3})
 	// --- E4 totality
 	registerRule(&RuleDef{ID: "P-IDX", Min: 40, Doc: "every index/slice in the decoders has a dominating length test on an equivalent operand", Run: rulePIDX})
 	registerRule(&RuleDef{ID: "P-ASSERT", Min: 15, Doc: "every single-result type assertion in the decoders is dominated by a successful comma-ok assertion", Run: rulePASSERT})
 	registerRule(&RuleDef{ID: "P-NIL", Min: 5, Doc: "optional pointer members are nil-tested before use in the decoders", Run: rulePNILdec})
-	registerRule(&RuleDef{ID: "P-HASH", Min: 2, Doc: "interface-typed map keys in the decoders have a comparable dynamic type on every path", Run: rulePHASH})
+	registerRule(&RuleDef{ID: "P-HASH", Min: 1, Doc: "interface-typed map keys in the decoders have a comparable dynamic type on every path", Run: rulePHASH})
 	registerRule(&RuleDef{ID: "P-NIL-TXN", Min: 3, Doc: "optional members of a client-supplied Operation are nil-tested before use", Run: rulePNILtxn})
 	registerRule(&RuleDef{ID: "P-NIL-MON", Min: 4, Doc: "a monitor request without select / without an entry for a table is tolerated", Run: rulePNILmon})
-	registerRule(&RuleDef{ID: "P-DIV", Min: 4, Doc: "integer division/modulo has a non-zero divisor (local test or ValidateMutation gate pair)", Run: rulePDIV})
+	registerRule(&RuleDef{ID: "P-DIV", Min: 2, Doc: "integer division/modulo has a non-zero divisor (local test or ValidateMutation gate pair)", Run: rulePDIV})
 	// --- E5 wiring
-	registerRule(&RuleDef{ID: "W1", Min: 18, Doc: "per monitor RPC: notification method, arity and payload agree between server sender, client handler and the RFC (pass also emits W2, W3)", Run: ruleW})
+	registerRule(&RuleDef{ID: "W1", Min: 12, Doc: "per monitor RPC: notification method, arity and payload agree between server sender, client handler and the RFC (pass also emits W2, W3)", Run: ruleW})
 	registerRule(&RuleDef{ID: "W2", Min: 6, Doc: "three monitor kinds, each with a processMonitors case (emitted by W1)", Run: noop})
-	registerRule(&RuleDef{ID: "W3", Min: 6, Doc: "every notification method has a client handler decoding the right payload (emitted by W1)", Run: noop})
-	registerRule(&RuleDef{ID: "W4", Min: 5, Doc: "notifications are delivered synchronously and handled in the client's read loop", Run: ruleW4Standalone})
+	registerRule(&RuleDef{ID: "W3", Min: 4, Doc: "every notification method has a client handler decoding the right payload (emitted by W1)", Run: noop})
+	registerRule(&RuleDef{ID: "W4", Min: 3, Doc: "notifications are delivered synchronously and handled in the client's read loop", Run: ruleW4Standalone})
 	// --- E6 exhaustiveness and friends
-	registerRule(&RuleDef{ID: "E6", Min: 120, Doc: "every constant of a group is handled at each sibling site", Run: ruleE6})
-	registerRule(&RuleDef{ID: "T-WIRE", Min: 9, Doc: "boolean mode arguments are wired to the required constant", Run: ruleTWIRE})
-	registerRule(&RuleDef{ID: "T-GUARD", Min: 5, Doc: "must-pass-through guards (Mutable, Go type, assignability)", Run: ruleTGUARD})
-	registerRule(&RuleDef{ID: "T-REFPOS", Min: 6, Doc: "every carrier / position of a reference is inspected", Run: ruleTREFPOS})
+	registerRule(&RuleDef{ID: "E6", Min: 100, Doc: "every constant of a group is handled at each sibling site", Run: ruleE6})
+	registerRule(&RuleDef{ID: "T-WIRE", Min: 6, Doc: "boolean mode arguments are wired to the required constant", Run: ruleTWIRE})
+	registerRule(&RuleDef{ID: "T-GUARD", Min: 3, Doc: "must-pass-through guards (Mutable, Go type, assignability)", Run: ruleTGUARD})
+	registerRule(&RuleDef{ID: "T-REFPOS", Min: 3, Doc: "every carrier / position of a reference is inspected", Run: ruleTREFPOS})
 	registerRule(&RuleDef{ID: "Q-PRE", Min: 3, Doc: "index lookups only pre-filter; rows are returned after every condition was evaluated", Run: ruleQPRE})
-	registerRule(&RuleDef{ID: "F-PAIR", Min: 6, Doc: "monitor filter pairs each kind of change with the select flag of the same name", Run: ruleFPAIR})
+	registerRule(&RuleDef{ID: "F-PAIR", Min: 3, Doc: "monitor filter pairs each kind of change with the select flag of the same name", Run: ruleFPAIR})
 	registerRule(&RuleDef{ID: "PM-ONCE", Min: 2, Doc: "one notification round per transaction, covering every monitor", Run: rulePMONCE})
 	registerRule(&RuleDef{ID: "DEFER-APPEND", Min: 5, Doc: "buffered notifications are appended and replayed in arrival order", Run: ruleDEFERAPPEND})
 	registerRule(&RuleDef{ID: "D-ORDER", Min: 2, Doc: "generator output does not depend on map iteration order", Run: ruleDORDER})
@@ -57,18 +57,18 @@ func init() {
 	registerRule(&RuleDef{ID: "R-DEFER", Min: 1, Doc: "deferral re-armed before every reconnect attempt (emitted by E7)", Run: noop})
 	registerRule(&RuleDef{ID: "R-ONCE", Min: 2, Doc: "the transact RPC is sent once per Transact (emitted by E7)", Run: noop})
 	// --- E8 index
-	registerRule(&RuleDef{ID: "X1", Min: 2, Doc: "an index entry is only removed after looking at who owns it", Run: ruleX1})
-	registerRule(&RuleDef{ID: "X2", Min: 8, Doc: "only Create/Update/Delete write the row and index maps", Run: ruleX2})
+	registerRule(&RuleDef{ID: "X1", Min: 1, Doc: "an index entry is only removed after looking at who owns it", Run: ruleX1})
+	registerRule(&RuleDef{ID: "X2", Min: 5, Doc: "only Create/Update/Delete write the row and index maps", Run: ruleX2})
 	registerRule(&RuleDef{ID: "X3", Min: 6, Doc: "each maintenance operation covers every index and writes the row last", Run: ruleX3})
 	registerRule(&RuleDef{ID: "X4", Min: 4, Doc: "commit-time checks in order, errors tested, before the success return", Run: ruleX4})
 	// --- E9 events
 	registerRule(&RuleDef{ID: "V1", Min: 3, Doc: "exactly one matching event after each successful cache mutation (pass also emits V2, V3)", Run: ruleV})
-	registerRule(&RuleDef{ID: "V2", Min: 7, Doc: "event fields reach the right callback arguments (emitted by V1)", Run: noop})
-	registerRule(&RuleDef{ID: "V3", Min: 5, Doc: "one producer, one consumer, drop only on overflow, handlers under one lock (emitted by V1)", Run: noop})
+	registerRule(&RuleDef{ID: "V2", Min: 4, Doc: "event fields reach the right callback arguments (emitted by V1)", Run: noop})
+	registerRule(&RuleDef{ID: "V3", Min: 3, Doc: "one producer, one consumer, drop only on overflow, handlers under one lock (emitted by V1)", Run: noop})
 	// --- named uuids
 	registerRule(&RuleDef{ID: "N-COVER", Min: 4, Doc: "every value-carrying member of Operation is expanded and stored back (pass also emits N-PHASE, N-POS, G-GATE)", Run: ruleN})
 	registerRule(&RuleDef{ID: "N-PHASE", Min: 4, Doc: "the name map is complete before the first substitution (emitted by N-COVER)", Run: noop})
-	registerRule(&RuleDef{ID: "N-POS", Min: 5, Doc: "expanding a position depends only on that position's type (emitted by N-COVER)", Run: noop})
+	registerRule(&RuleDef{ID: "N-POS", Min: 3, Doc: "expanding a position depends only on that position's type (emitted by N-COVER)", Run: noop})
 	registerRule(&RuleDef{ID: "G-GATE", Min: 6, Doc: "a checked ExpandNamedUUIDs dominates every operation dispatch (emitted by N-COVER)", Run: noop})
 
 	registerProp(&PropDef{
@@ -217,7 +217,7 @@ func init() {
 	registerRule(&RuleDef{ID: "X7", Min: 5, Doc: "validate then write: no error return after an index/row entry was written", Run: ruleX7})
 	registerRule(&RuleDef{ID: "S-LOOP", Min: 2, Doc: "per-table containers of the monitor filter are created inside the per-table loop", Run: ruleSLOOP})
 	registerRule(&RuleDef{ID: "T-INITREFS", Min: 1, Doc: "existing references are loaded before a row's reference changes are applied", Run: ruleTINITREFS})
-	registerRule(&RuleDef{ID: "K6", Min: 2, Doc: "inside a map only a nested map is refused", Run: ruleK6})
+	registerRule(&RuleDef{ID: "K6", Min: 1, Doc: "inside a map only a nested map is refused", Run: ruleK6})
 	registerRule(&RuleDef{ID: "G-CLONE", Min: 2, Doc: "model.Clone/CloneInto never copy by shallow reflective assignment", Run: ruleGCLONE})
 	registerRule(&RuleDef{ID: "V-RECV", Min: 1, Doc: "every received event is dispatched (pass also emits V-WHO)", Run: ruleVRECV})
 	registerRule(&RuleDef{ID: "V-WHO", Min: 4, Doc: "rows are changed only where the matching event is emitted (emitted by V-RECV)", Run: noop})
@@ -225,10 +225,16 @@ func init() {
 	registerRule(&RuleDef{ID: "L-WAIT", Min: 1, Doc: "no WaitGroup.Wait while holding a client lock", Run: ruleLWAIT})
 	registerRule(&RuleDef{ID: "G-ARGS", Min: 1, Doc: "transact handler requires at least one operation", Run: ruleGARGS})
 	registerRule(&RuleDef{ID: "P-NIL-TYPEOBJ", Min: 3, Doc: "ColumnSchema.TypeObj dereferenced only for map/set/enum columns or after a nil test", Run: rulePNILTYPEOBJ})
-	registerRule(&RuleDef{ID: "GEN-ENUM", Min: 2, Doc: "enum alias names only with enum types on", Run: ruleGENENUM})
+	registerRule(&RuleDef{ID: "GEN-ENUM", Min: 1, Doc: "enum alias names only with enum types on", Run: ruleGENENUM})
 	registerRule(&RuleDef{ID: "L-ATOM", Min: 8, Doc: "no value read from a guarded field is used in a later critical section of the same lock (split critical section / check-then-act)", Run: ruleLATOM("client", "cache", "server", "database/inmemory")})
 	add("C05", "L-ATOM")
-	registerRule(&RuleDef{ID: "K-WIRETYPE", Min: 12, Doc: "encoder and decoder of a codec pair declare the same Go type for the same wire member", Run: ruleKWIRETYPE})
+	registerRule(&RuleDef{ID: "L-CHAN", Min: 0, Doc: "no unconditional channel send while holding a lock its receiver may need", Run: ruleLCHAN})
+	add("C18", "L-CHAN")
+	registerRule(&RuleDef{ID: "L-RPC", Min: 3, Doc: "no lock needed by a notification handler is held across a blocking RPC", Run: ruleLRPC})
+	add("C18", "L-RPC")
+	add("C01", "L-RPC")
+	add("C16", "L-RPC")
+	registerRule(&RuleDef{ID: "K-WIRETYPE", Min: 8, Doc: "encoder and decoder of a codec pair declare the same Go type for the same wire member", Run: ruleKWIRETYPE})
 	add("C12", "K-WIRETYPE")
 	registerRule(&RuleDef{ID: "K-REGEX", Min: 1, Doc: "validity regexps of package ovsdb are anchored at both ends", Run: ruleKREGEX})
 	add("C15", "K-REGEX")
